@@ -25,6 +25,7 @@ SHARED = {
     "FuncAlg": ["C13", "C06", "C03"],
     "Generators": ["C12"],
     "FlatSteps": ["C01", "C08", "C15"],
+    "GenH": ["C01", "C02", "C08", "C09", "C17"],
 }
 
 
